@@ -527,7 +527,9 @@ impl<'a, 'h> Root<'a, 'h> {
                         self.tasks[i].res.first_poll_us = world::now_us();
                         let r = std::panic::catch_unwind(AssertUnwindSafe(mk));
                         match r {
-                            Ok(f) => self.tasks[i].fut = Some(f),
+                            // unconstrained: tokio's cooperative budget must never turn a ready
+                            // semaphore / channel / timer into a spurious Pending
+                            Ok(f) => self.tasks[i].fut = Some(Box::pin(tokio::task::unconstrained(f))),
                             Err(_) => {
                                 self.tasks[i].res.status = Status::Panicked;
                             }
